@@ -18,7 +18,7 @@ vars == <<row>>
 
 Fuel == 20
 
-Positions == <<"if", "while", "tern", "not", "andl", "andr", "orl", "orr", "run", "nottwice", "ifnot">>
+Positions == <<"if", "while", "tern", "not", "andl", "andr", "orl", "orr", "run", "nottwice", "ifnot", "ternnot", "whilenot", "notor">>
 Provs     == <<"lit", "var", "fld", "host", "single">>
 
 \* the expression standing for value v with provenance p
@@ -35,6 +35,9 @@ ProgAt(pos, x) ==
     [] pos = "not"   -> <<Ret(<<"un", "!", x>>)>>
     [] pos = "nottwice" -> <<Ret(<<"un", "!", <<"un", "!", x>>>>)>>
     [] pos = "ifnot" -> <<If(<<"un", "!", x>>, <<Ret(LitI(1))>>), Ret(LitI(0))>>
+    [] pos = "ternnot" -> <<Ret(<<"tern", <<"un", "!", x>>, LitI(1), LitI(0)>>)>>
+    [] pos = "whilenot" -> <<While(<<"un", "!", x>>, <<Ret(LitI(1))>>), Ret(LitI(0))>>
+    [] pos = "notor" -> <<Ret(BinE("||", <<"un", "!", x>>, LitB(FALSE)))>>
     [] pos = "andl"  -> <<Ret(BinE("&&", x, LitB(TRUE)))>>
     [] pos = "andr"  -> <<Ret(BinE("&&", LitB(TRUE), x))>>
     [] pos = "orl"   -> <<Ret(BinE("||", x, LitB(FALSE)))>>
